@@ -89,7 +89,6 @@ type machine struct {
 	c          Case
 	nsrc       int
 	dead       bool // a listed finding without a continuation rule was hit: stop operating
-	nontrivial bool
 	overExist  bool
 	dirExtras  bool
 }
@@ -220,14 +219,15 @@ func decide(s Src, b *Built, model map[string]*installed, overwrite bool) verdic
 // followedByFile: input class of finding F9 — a directory whose sole, non-executable candidate
 // is followed (in name order, the sub-directory named like the source included) by another
 // regular file. Used only to choose the finding key.
-func followedByFile(s Src) bool {
+func followedByFile(s Src, plugin string) bool {
+	cand := "notation-" + plugin
 	for _, e := range s.Extras {
-		if e > "notation-"+s.Name {
+		if e > cand {
 			return true
 		}
 	}
 	for _, sd := range s.Subdirs {
-		if sd.Name != srcDirName || sd.Name < "notation-"+s.Name {
+		if sd.Name != srcDirName || sd.Name < cand {
 			continue
 		}
 		for _, f := range sd.Files {
@@ -239,8 +239,8 @@ func followedByFile(s Src) bool {
 	return false
 }
 
-func nonExecKey(s Src) string {
-	if followedByFile(s) {
+func nonExecKey(s Src, plugin string) string {
+	if followedByFile(s, plugin) {
 		return keyNonExecRefused
 	}
 	return keyNonExecAlone
@@ -532,7 +532,7 @@ func (m *machine) checkRefused(rt *rapid.T, src Src, v verdict, before, after []
 		case sameNamedSubdirCandidate(src):
 			key = keySameNamedSubdir
 		case v.soleNonExec:
-			key = nonExecKey(src)
+			key = nonExecKey(src, v.plugin)
 		}
 		m.fail(rt, key, "the model expects this installation to install/replace %q (version relation %s) but it was refused: %v", v.plugin, v.rel, err)
 		// listed finding: the tree is unchanged (checked above), so the model stays as it is
@@ -546,7 +546,7 @@ func (m *machine) checkRefused(rt *rapid.T, src Src, v verdict, before, after []
 			case sameNamedSubdirCandidate(src):
 				return keySameNamedSubdir
 			case v.soleNonExec:
-				return nonExecKey(src)
+				return nonExecKey(src, v.plugin)
 			}
 			return k
 		}
